@@ -160,7 +160,7 @@ func Decide(env *Env, cf *ClaimsFile, res *Result, replay func(o *Obl)) *Verdict
 	kf := LoadFindings(env.Verif)
 	counts := make([]int, len(cf.Claims))
 	for _, o := range res.Obls {
-		claimed := false
+		claimed := o.Kind == "driver-crash" // a crash of the code under test inside a driver is always a claimed failure
 		for i := range cf.Claims {
 			if cf.Claims[i].matches(o.Name) {
 				counts[i]++
